@@ -355,6 +355,8 @@ def anchor_counts(j, acc=None):
     acc = {} if acc is None else acc
     if j.get("a"):
         acc[j["a"]] = acc.get(j["a"], 0) + 1
+        if acc[j["a"]] > 1:
+            return acc      # an alias: its content is the same object, already counted
     if j.get("k") == "map":
         for _k, v in j["e"]:
             anchor_counts(v, acc)
